@@ -7,9 +7,25 @@ The date codec (AppendHTTPDate / parseCookieExpires) is a parameter; its round t
 (C31's subject) and is checked on every generated expiry by the C06 harness.
 -/
 import FhVerif.Proofs.Cookie
+import FhVerif.Gen.Facts
 
 namespace Fh.Props.C06
 open Fh Fh.Model Fh.Spec Fh.Proofs.Cookie
+
+/-! ### regenerated structural facts (re-decided against /repo on each run) -/
+
+/-- every Cookie text setter and RequestHeader.SetCookie runs the CR/LF sanitiser and removeSemicolons -/
+theorem setters_call_neutralisers :
+    "removeSemicolons" ∈ Gen.calls_Cookie_SetKey ∧ "removeSemicolons" ∈ Gen.calls_Cookie_SetKeyBytes ∧
+    "removeSemicolons" ∈ Gen.calls_Cookie_SetValue ∧ "removeSemicolons" ∈ Gen.calls_Cookie_SetValueBytes ∧
+    "removeSemicolons" ∈ Gen.calls_Cookie_SetDomain ∧ "removeSemicolons" ∈ Gen.calls_Cookie_SetDomainBytes ∧
+    "removeSemicolons" ∈ Gen.calls_Cookie_SetPath ∧ "removeSemicolons" ∈ Gen.calls_Cookie_SetPathBytes ∧
+    "removeNewLines" ∈ Gen.calls_Cookie_SetPath ∧ "removeNewLines" ∈ Gen.calls_Cookie_SetPathBytes ∧
+    "initHeaderValueString" ∈ Gen.calls_Cookie_SetKey ∧ "initHeaderValueBytes" ∈ Gen.calls_Cookie_SetKeyBytes ∧
+    "initHeaderValueString" ∈ Gen.calls_Cookie_SetValue ∧ "initHeaderValueBytes" ∈ Gen.calls_Cookie_SetValueBytes ∧
+    "initHeaderValueString" ∈ Gen.calls_Cookie_SetDomain ∧ "initHeaderValueBytes" ∈ Gen.calls_Cookie_SetDomainBytes ∧
+    "removeSemicolons" ∈ Gen.calls_RequestHeader_SetCookie ∧ "initHeaderValueString" ∈ Gen.calls_RequestHeader_SetCookie := by
+  decide
 
 /-! ### cookies built through the setter API -/
 
